@@ -1,7 +1,8 @@
 import BstreamVerif.Lemmas.IndexInv
+import BstreamVerif.Model.FileSourceSeq
 /-!
 # C15 — Block indexes find what was indexed; indexed file streaming loses no match
-Provider/indexer half (the file-source half is in the second part of this file once `FileSourceSeq` is in).
+Provider/indexer half first; the file-source half (what `PassesFilter` lets through of one bundle) second.
 -/
 namespace BstreamVerif.Props.C15
 open BstreamVerif.Index BstreamVerif.IndexLemmas BstreamVerif.IndexInv
@@ -79,5 +80,350 @@ theorem add_membership (keys : List Key) (kv : KV) (k' : Key) (n m : Nat) :
 
 /-! Non-vacuity: index size 10 spanning two bundles of 5; the window [10,15) excludes 15 (F-C15's input). -/
 example : scan 10 15 [10, 11, 12, 13, 14, 15, 16] = [10, 11, 12, 13, 14] := by decide
+
+/-! ## File-source half: what one bundle delivers under an index result
+
+`streamFile` with `filtered = some l` is the model of `streamReader` + `incomingBlocksFile.PassesFilter` (compared with
+the real file source by the `indexsrc` suite). `l` is what `lookupBlockIndex` hands over: the provider's matches of
+the bundle merged with the start, stop and whitelisted numbers, ascending. -/
+section FileSource
+open BstreamVerif BstreamVerif.FileSourceSeq
+
+/-- the stored blocks of the file the source looks at (at or above the start block and the bundle base) -/
+def eligible (cfg : Cfg) (base : Nat) (blocks : List Blk) : List Blk :=
+  blocks.filter (fun b => decide (cfg.start ≤ b.num) && decide (base ≤ b.num))
+
+/-- closed form of the delivery: a block passes iff it consumes at least one wanted number -/
+def deliverF : List Nat → List Blk → List Blk
+  | _, [] => []
+  | r, b :: rest =>
+    if (r.dropWhile (fun w => decide (b.num ≥ w))).length < r.length
+    then b :: deliverF (r.dropWhile (fun w => decide (b.num ≥ w))) rest
+    else deliverF (r.dropWhile (fun w => decide (b.num ≥ w))) rest
+
+theorem streamFile_filtered (cfg : Cfg) (base : Nat) (l : List Nat) (blocks : List Blk) (last : Id) (acc : List Blk) :
+    (streamFile cfg false base (some l) blocks last none acc).1 = acc ++ deliverF l (eligible cfg base blocks) ∧
+    (streamFile cfg false base (some l) blocks last none acc).2.2.2 = none := by
+  induction blocks generalizing l last acc with
+  | nil => simp [streamFile, eligible, deliverF]
+  | cons b rest ih =>
+    unfold streamFile
+    by_cases h1 : b.num < cfg.start
+    · simp only [h1, if_true]
+      have hel : eligible cfg base (b :: rest) = eligible cfg base rest := by
+        unfold eligible; rw [List.filter_cons_of_neg]; simp; omega
+      rw [hel]; exact ih l last acc
+    · simp only [h1, if_false]
+      by_cases h2 : b.num < base
+      · simp only [h2, if_true]
+        have hel : eligible cfg base (b :: rest) = eligible cfg base rest := by
+          unfold eligible; rw [List.filter_cons_of_neg]; simp; omega
+        rw [hel]; exact ih l last acc
+      · simp only [h2, if_false]
+        have hel : eligible cfg base (b :: rest) = b :: eligible cfg base rest := by
+          unfold eligible; rw [List.filter_cons_of_pos]; simp; omega
+        rw [hel]
+        simp only [passesFilter]
+        by_cases hp : (l.dropWhile (fun w => decide (b.num ≥ w))).length < l.length
+        · have hd : deliverF l (b :: eligible cfg base rest)
+              = b :: deliverF (l.dropWhile (fun w => decide (b.num ≥ w))) (eligible cfg base rest) := by
+            rw [deliverF, if_pos hp]
+          rw [hd]
+          simp only [hp, decide_true, Bool.not_true, Bool.false_and, Bool.false_eq_true, if_false]
+          have := ih (l.dropWhile (fun w => decide (b.num ≥ w))) b.id (acc ++ [b])
+          simpa [List.append_assoc] using this
+        · have hd : deliverF l (b :: eligible cfg base rest)
+              = deliverF (l.dropWhile (fun w => decide (b.num ≥ w))) (eligible cfg base rest) := by
+            rw [deliverF, if_neg hp]
+          rw [hd]
+          simp only [hp, decide_false, Bool.not_false, if_true]
+          exact ih _ last acc
+
+theorem deliverF_sublist (r : List Nat) (bs : List Blk) : (deliverF r bs).Sublist bs := by
+  induction bs generalizing r with
+  | nil => simp [deliverF]
+  | cons b rest ih =>
+    rw [deliverF]
+    split
+    · exact (ih _).cons_cons b
+    · exact (ih _).cons b
+
+private theorem mem_dropWhile_of_not (p : Nat → Bool) (r : List Nat) (x : Nat) (hx : x ∈ r) (hp : p x = false) :
+    x ∈ r.dropWhile p := by
+  induction r with
+  | nil => cases hx
+  | cons h t ih =>
+    rw [List.dropWhile_cons]
+    split
+    · rcases List.mem_cons.mp hx with rfl | hx
+      · simp_all
+      · exact ih hx
+    · exact hx
+
+private theorem dropWhile_gt (c : Nat) (r : List Nat) (hs : r.Pairwise (· ≤ ·)) :
+    ∀ x ∈ r.dropWhile (fun w => decide (c ≥ w)), c < x := by
+  induction r with
+  | nil => intro x hx; cases hx
+  | cons h t ih =>
+    intro x hx
+    rw [List.dropWhile_cons] at hx
+    split at hx
+    · exact ih (List.pairwise_cons.mp hs).2 x hx
+    · rename_i hh
+      have hh' : c < h := by simpa using hh
+      rcases List.mem_cons.mp hx with rfl | hx
+      · exact hh'
+      · have := (List.pairwise_cons.mp hs).1 x hx; omega
+
+private theorem dropWhile_pairwise (p : Nat → Bool) (r : List Nat) (hs : r.Pairwise (· ≤ ·)) :
+    (r.dropWhile p).Pairwise (· ≤ ·) :=
+  hs.sublist (List.dropWhile_sublist p)
+
+/-- **No match is lost**: every stored block of the bundle whose number is wanted is delivered
+    (`l` ascending, block numbers ascending within the file). -/
+theorem deliverF_complete (r : List Nat) (bs : List Blk) (hs : r.Pairwise (· ≤ ·))
+    (hb : bs.Pairwise (fun a b => a.num < b.num)) (b : Blk) (hmem : b ∈ bs) (hw : b.num ∈ r) :
+    b ∈ deliverF r bs := by
+  induction bs generalizing r with
+  | nil => cases hmem
+  | cons c rest ih =>
+    have hb' := List.pairwise_cons.mp hb
+    rw [deliverF]
+    rcases List.mem_cons.mp hmem with rfl | hm
+    · -- the head of r is ≤ b.num, so it is consumed
+      have hlt : (r.dropWhile (fun w => decide (b.num ≥ w))).length < r.length := by
+        cases r with
+        | nil => cases hw
+        | cons h t =>
+          have hh : h ≤ b.num := by
+            rcases List.mem_cons.mp hw with e | hw
+            · omega
+            · exact (List.pairwise_cons.mp hs).1 _ hw
+          rw [List.dropWhile_cons, if_pos (by simpa using hh)]
+          have := (List.dropWhile_sublist (fun w => decide (b.num ≥ w)) (l := t)).length_le
+          simp only [List.length_cons]; omega
+      rw [if_pos hlt]; exact List.mem_cons_self
+    · have hlt := hb'.1 b hm
+      have hw' : b.num ∈ r.dropWhile (fun w => decide (c.num ≥ w)) :=
+        mem_dropWhile_of_not _ r b.num hw (by simp; omega)
+      have := ih _ (dropWhile_pairwise _ r hs) hb'.2 hm hw'
+      split
+      · exact List.mem_cons_of_mem _ this
+      · exact this
+
+/-- **Nothing besides the matches**: a delivered block is the first stored block at or above some wanted number
+    (the wanted block itself, or the next existing block when that number is skipped). -/
+theorem deliverF_sound (r : List Nat) (bs : List Blk) (hs : r.Pairwise (· ≤ ·))
+    (hb : bs.Pairwise (fun a b => a.num < b.num)) (b : Blk) (hd : b ∈ deliverF r bs) :
+    ∃ w ∈ r, w ≤ b.num ∧ ∀ b' ∈ bs, b'.num < b.num → b'.num < w := by
+  induction bs generalizing r with
+  | nil => simp [deliverF] at hd
+  | cons c rest ih =>
+    have hb' := List.pairwise_cons.mp hb
+    rw [deliverF] at hd
+    have tail : b ∈ deliverF (r.dropWhile (fun w => decide (c.num ≥ w))) rest →
+        ∃ w ∈ r, w ≤ b.num ∧ ∀ b' ∈ c :: rest, b'.num < b.num → b'.num < w := by
+      intro h
+      obtain ⟨w, hw, hle, hall⟩ := ih _ (dropWhile_pairwise _ r hs) hb'.2 h
+      refine ⟨w, (List.dropWhile_sublist _).subset hw, hle, ?_⟩
+      intro b' hb'm hlt
+      rcases List.mem_cons.mp hb'm with rfl | hm
+      · exact dropWhile_gt _ r hs w hw
+      · exact hall b' hm hlt
+    split at hd
+    · rename_i hlt
+      rcases List.mem_cons.mp hd with rfl | hd
+      · cases r with
+        | nil => simp at hlt
+        | cons h t =>
+          by_cases hh : h ≤ b.num
+          · refine ⟨h, List.mem_cons_self, hh, ?_⟩
+            intro b' hb'm hlt'
+            rcases List.mem_cons.mp hb'm with rfl | hm
+            · omega
+            · have := hb'.1 b' hm; omega
+          · rw [List.dropWhile_cons, if_neg (by simpa using hh)] at hlt
+            simp at hlt
+      · exact tail hd
+    · exact tail hd
+
+/-- C15, one bundle, at the level of `streamFile`: in stored order and each once (`Sublist`), every wanted stored
+    block, and only blocks that are the first stored block at or above a wanted number. -/
+theorem indexed_bundle_delivery (cfg : Cfg) (base : Nat) (l : List Nat) (blocks : List Blk) (last : Id)
+    (hs : l.Pairwise (· ≤ ·)) (hb : blocks.Pairwise (fun a b => a.num < b.num)) :
+    let out := (streamFile cfg false base (some l) blocks last none []).1
+    out.Sublist (eligible cfg base blocks) ∧
+    (∀ b ∈ eligible cfg base blocks, b.num ∈ l → b ∈ out) ∧
+    (∀ b ∈ out, ∃ w ∈ l, w ≤ b.num ∧ ∀ b' ∈ eligible cfg base blocks, b'.num < b.num → b'.num < w) := by
+  have h := (streamFile_filtered cfg base l blocks last []).1
+  simp only [List.nil_append] at h
+  have hb2 : (eligible cfg base blocks).Pairwise (fun a b => a.num < b.num) :=
+    hb.sublist List.filter_sublist
+  simp only [h]
+  exact ⟨deliverF_sublist _ _, fun b hm hw => deliverF_complete _ _ hs hb2 b hm hw,
+    fun b hd => deliverF_sound _ _ hs hb2 b hd⟩
+
+/-! ### `tweakRangeIndexResults`: what is handed to `PassesFilter` -/
+
+theorem mem_insertSortedNat (n x : Nat) (l : List Nat) : x ∈ insertSortedNat n l ↔ x = n ∨ x ∈ l := by
+  induction l with
+  | nil => simp [insertSortedNat]
+  | cons h t ih =>
+    unfold insertSortedNat
+    split
+    · simp
+    · split
+      · rename_i _ he
+        have : n = h := by simpa using he
+        subst this; simp
+      · simp only [List.mem_cons, ih]
+        constructor
+        · rintro (h1 | h1 | h1) <;> simp [h1]
+        · rintro (h1 | h1 | h1) <;> simp [h1]
+
+theorem pairwise_insertSortedNat (n : Nat) (l : List Nat) (hl : l.Pairwise (· < ·)) :
+    (insertSortedNat n l).Pairwise (· < ·) := by
+  induction l with
+  | nil => simp [insertSortedNat]
+  | cons h t ih =>
+    have hp := List.pairwise_cons.mp hl
+    unfold insertSortedNat
+    split
+    · rename_i hlt
+      refine List.pairwise_cons.mpr ⟨?_, hl⟩
+      intro y hy
+      rcases List.mem_cons.mp hy with rfl | hy
+      · exact hlt
+      · have := hp.1 y hy; omega
+    · split
+      · exact hl
+      · rename_i h1 h2
+        have hne : n ≠ h := by simpa using h2
+        refine List.pairwise_cons.mpr ⟨?_, ih hp.2⟩
+        intro y hy
+        rcases (mem_insertSortedNat n y t).mp hy with rfl | hy
+        · omega
+        · exact hp.1 y hy
+
+theorem foldl_insertSorted (xs acc : List Nat) (ha : acc.Pairwise (· < ·)) :
+    (xs.foldl (fun l n => insertSortedNat n l) acc).Pairwise (· < ·) ∧
+    ∀ x, x ∈ xs.foldl (fun l n => insertSortedNat n l) acc ↔ x ∈ xs ∨ x ∈ acc := by
+  induction xs generalizing acc with
+  | nil => simp [ha]
+  | cons y ys ih =>
+    simp only [List.foldl_cons]
+    obtain ⟨h1, h2⟩ := ih (insertSortedNat y acc) (pairwise_insertSortedNat y acc ha)
+    refine ⟨h1, fun x => ?_⟩
+    rw [h2, mem_insertSortedNat]
+    simp only [List.mem_cons]
+    constructor
+    · rintro (h | h | h) <;> simp [h]
+    · rintro ((h | h) | h) <;> simp [h]
+
+/-- the numbers `tweakRangeIndexResults` may add to the provider's answer for the bundle at `base` -/
+def addsOf (cfg : Cfg) (wl : List Nat) (base : Nat) : List Nat :=
+  wl.filter (fun w => w ≥ base && w < base + cfg.bundleSize) ++
+    (if base ≤ cfg.start && base + cfg.bundleSize > cfg.start then [cfg.start] else []) ++
+    (if cfg.stop != 0 && base ≤ cfg.stop && base + cfg.bundleSize > cfg.stop then [cfg.stop] else [])
+
+/-- bounded, sorted, duplicate-free -/
+def uniqOf (cfg : Cfg) (all : List Nat) : List Nat :=
+  (all.filter (fun b => b ≥ cfg.start && (cfg.stop == 0 || b ≤ cfg.stop))).foldl (fun l n => insertSortedNat n l) []
+
+theorem tweakRange_eq (cfg : Cfg) (wl : List Nat) (base : Nat) (r : Option (List Nat)) :
+    tweakRange cfg wl base r =
+      if (addsOf cfg wl base).isEmpty then (r, wl.filter (fun w => w ≥ base + cfg.bundleSize))
+      else (if (uniqOf cfg (r.getD [] ++ addsOf cfg wl base)).isEmpty then none
+            else some (uniqOf cfg (r.getD [] ++ addsOf cfg wl base)), wl.filter (fun w => w ≥ base + cfg.bundleSize)) := rfl
+
+/-- **What the filter list is**: either the provider's answer untouched (nothing to add), or — ascending, each number
+    once — the provider's matches and the start / stop / whitelisted numbers of the bundle, cut to `[start, stop]`. -/
+theorem tweakRange_spec (cfg : Cfg) (wl : List Nat) (base : Nat) (r : Option (List Nat)) (out : List Nat)
+    (h : (tweakRange cfg wl base r).1 = some out) :
+    (addsOf cfg wl base = [] ∧ r = some out) ∨
+    (out.Pairwise (· < ·) ∧
+      ∀ x, x ∈ out ↔ (cfg.start ≤ x ∧ (cfg.stop = 0 ∨ x ≤ cfg.stop)) ∧ (x ∈ r.getD [] ∨ x ∈ addsOf cfg wl base)) := by
+  rw [tweakRange_eq] at h
+  by_cases he : (addsOf cfg wl base).isEmpty = true
+  · rw [if_pos he] at h
+    left
+    exact ⟨by simpa using he, h⟩
+  · rw [if_neg he] at h
+    right
+    simp only at h
+    by_cases hu : (uniqOf cfg (r.getD [] ++ addsOf cfg wl base)).isEmpty = true
+    · rw [if_pos hu] at h; cases h
+    · rw [if_neg hu] at h
+      simp only [Option.some.injEq] at h
+      subst h
+      obtain ⟨h1, h2⟩ := foldl_insertSorted
+        ((r.getD [] ++ addsOf cfg wl base).filter (fun b => b ≥ cfg.start && (cfg.stop == 0 || b ≤ cfg.stop)))
+        [] List.Pairwise.nil
+      refine ⟨h1, fun x => ?_⟩
+      unfold uniqOf
+      rw [h2]
+      simp only [List.mem_filter, List.mem_append, List.not_mem_nil, or_false, Bool.and_eq_true,
+        decide_eq_true_eq, Bool.or_eq_true, beq_iff_eq, ge_iff_le]
+      constructor
+      · rintro ⟨hm, hb⟩; exact ⟨hb, hm⟩
+      · rintro ⟨hb, hm⟩; exact ⟨hm, hb⟩
+
+/-- **No match is lost in a bundle the index covers**: a stored block of the bundle at `base` whose number the
+    provider reported (ascending answer `l`) and which lies between start and stop is delivered, whatever the
+    whitelist, start and stop add to the list. -/
+theorem indexed_bundle_no_match_lost (cfg : Cfg) (wl : List Nat) (base : Nat) (l out : List Nat) (blocks : List Blk)
+    (last : Id) (hl : l.Pairwise (· < ·)) (hb : blocks.Pairwise (fun a b => a.num < b.num))
+    (h : (tweakRange cfg wl base (some l)).1 = some out)
+    (b : Blk) (hm : b ∈ blocks) (hbase : base ≤ b.num) (hstart : cfg.start ≤ b.num)
+    (hstop : cfg.stop = 0 ∨ b.num ≤ cfg.stop) (hw : b.num ∈ l) :
+    b ∈ (streamFile cfg false base (some out) blocks last none []).1 := by
+  have hle : ∀ {r : List Nat}, r.Pairwise (· < ·) → r.Pairwise (· ≤ ·) :=
+    fun hr => hr.imp (fun h => Nat.le_of_lt h)
+  have hel : b ∈ eligible cfg base blocks := by
+    unfold eligible; simp [hm, hbase, hstart]
+  rcases tweakRange_spec cfg wl base (some l) out h with ⟨_, he⟩ | ⟨hp, hmem⟩
+  · have : l = out := by simpa using he
+    subst this
+    exact (indexed_bundle_delivery cfg base l blocks last (hle hl) hb).2.1 b hel hw
+  · have hin : b.num ∈ out := (hmem b.num).mpr ⟨⟨hstart, hstop⟩, Or.inl (by simpa using hw)⟩
+    exact (indexed_bundle_delivery cfg base out blocks last (hle hp) hb).2.1 b hel hin
+
+/-- … **and nothing besides** the matches and the start, stop and whitelisted blocks: a delivered block is the
+    first stored block at or above a number the provider reported or that `tweakRangeIndexResults` added. -/
+theorem indexed_bundle_only_wanted (cfg : Cfg) (wl : List Nat) (base : Nat) (l out : List Nat) (blocks : List Blk)
+    (last : Id) (hl : l.Pairwise (· < ·)) (hb : blocks.Pairwise (fun a b => a.num < b.num))
+    (h : (tweakRange cfg wl base (some l)).1 = some out)
+    (b : Blk) (hd : b ∈ (streamFile cfg false base (some out) blocks last none []).1) :
+    ∃ w, (w ∈ l ∨ w = cfg.start ∨ w = cfg.stop ∨ w ∈ wl) ∧ w ≤ b.num ∧
+      ∀ b' ∈ eligible cfg base blocks, b'.num < b.num → b'.num < w := by
+  have hle : ∀ {r : List Nat}, r.Pairwise (· < ·) → r.Pairwise (· ≤ ·) :=
+    fun hr => hr.imp (fun h => Nat.le_of_lt h)
+  rcases tweakRange_spec cfg wl base (some l) out h with ⟨_, he⟩ | ⟨hp, hmem⟩
+  · have : l = out := by simpa using he
+    subst this
+    obtain ⟨w, hw, h1, h2⟩ := (indexed_bundle_delivery cfg base l blocks last (hle hl) hb).2.2 b hd
+    exact ⟨w, Or.inl hw, h1, h2⟩
+  · obtain ⟨w, hw, h1, h2⟩ := (indexed_bundle_delivery cfg base out blocks last (hle hp) hb).2.2 b hd
+    refine ⟨w, ?_, h1, h2⟩
+    rcases ((hmem w).mp hw).2 with hx | hx
+    · exact Or.inl (by simpa using hx)
+    · unfold addsOf at hx
+      simp only [List.mem_append, List.mem_filter] at hx
+      rcases hx with (hx | hx) | hx
+      · exact Or.inr (Or.inr (Or.inr hx.1))
+      · split at hx
+        · exact Or.inr (Or.inl (by simpa using hx))
+        · cases hx
+      · split at hx
+        · exact Or.inr (Or.inr (Or.inl (by simpa using hx)))
+        · cases hx
+
+/-! Non-vacuity: bundle 10..19 with 13 skipped; wanted 12, 13, 17: delivers 12, 14 (next existing after 13), 17. -/
+example :
+    let blk (n : Nat) : Blk := { id := toString n, parent := toString (n - 1), num := n, lib := 0 }
+    ((streamFile { start := 11, stop := 0, bundleSize := 10, whitelist := [] } false 10 (some [12, 13, 17])
+        ([10, 11, 12, 14, 15, 16, 17, 18].map blk) "" none []).1.map (·.num)) = [12, 14, 17] := by decide
+
+end FileSource
 
 end BstreamVerif.Props.C15
